@@ -439,7 +439,9 @@ func splitList(s string) []string {
 		case '(', '{':
 			depth++
 		case ')', '}':
-			depth--
+			if depth > 0 {
+				depth--
+			}
 		case ',':
 			if depth == 0 {
 				if t := strings.TrimSpace(s[start:i]); t != "" {
